@@ -169,6 +169,10 @@ func Explore(r *vlib.Run, scenarios []Scenario, bound int) {
 	}
 }
 
+// RaceOnlyTopsIn, when set, restricts the race pass to reports in which at least one of the two accessing
+// frames belongs to a package with this prefix (checks that run third-party networking code free-running).
+var RaceOnlyTopsIn = ""
+
 // RacePass builds the check with -race (runtime mounted, no instrumentation, mutant files if any) and runs it.
 func RacePass(r *vlib.Run, lc string, iters int) {
 	b, _ := os.ReadFile("/verif/.overlay/" + lc + "/overlay.json")
@@ -214,6 +218,18 @@ func RacePass(r *vlib.Run, lc string, iters int) {
 					}
 					tops = append(tops, ln)
 					break
+				}
+			}
+			if RaceOnlyTopsIn != "" {
+				mine := false
+				for _, tp := range tops {
+					if strings.HasPrefix(tp, RaceOnlyTopsIn) || strings.HasPrefix(tp, "verif/") || strings.HasPrefix(tp, "main.") {
+						mine = true
+					}
+				}
+				if !mine {
+					r.Add("race_reports_in_third_party_code_ignored", 1)
+					continue
 				}
 			}
 			harnessOnly := len(tops) > 0
